@@ -1178,6 +1178,14 @@ impl ConfigState {
             )?,
         );
 
+        // Store the certificate the way `add_certificate` does, with its names
+        // resolved: `generate_requests` replays it through AddCertificate, which
+        // resolves empty names, so the replayed state would otherwise differ.
+        let mut new_certificate = replace.new_certificate.clone();
+        new_certificate
+            .apply_overriding_names()
+            .map_err(|names_err| StateError::ReplaceCertificate(names_err.to_string()))?;
+
         self.certificates
             .get_mut(&replace_address)
             .ok_or(StateError::NotFound {
@@ -1188,7 +1196,7 @@ impl ConfigState {
 
         self.certificates
             .get_mut(&replace_address)
-            .map(|certs| certs.insert(new_fingerprint.clone(), replace.new_certificate.clone()));
+            .map(|certs| certs.insert(new_fingerprint.clone(), new_certificate));
 
         if !self
             .certificates
